@@ -24,8 +24,10 @@
 (*   A second named deviation, "unescrow_receiver_only": when the module   *)
 (*   releases escrowed tokens (ConvertCoin on an ERC20-origin pair) the    *)
 (*   code verifies the RECEIVER's balance and never its own escrow.        *)
-(*   A third, "wrapper_false_is_success": the bank-send wrapper returns    *)
-(*   success, without any further check, when transfer() answers false.    *)
+(*   A third, "wrapper_false_is_success": the bank-send wrapper returned   *)
+(*   success, without any further check, when transfer() answers false     *)
+(*   (repaired in the code, /repo d35d11b; the member stays as a witness   *)
+(*   configuration and is no longer part of the as-built machine).         *)
 (*                                                                         *)
 (* Token contracts.  An ERC20-origin pair is backed by a contract the      *)
 (* chain does not control: everything the chain learns about the token it  *)
